@@ -331,7 +331,7 @@ def _overrides(rng, fam, t, one=False):
 
 
 def run(ck):
-    ck.prepare_lean()
+    ck.prepare_lean(extra_targets=['MidoProofs.Props.C15b'])
     ck.run_corpus(oracle)
     hs = gen(ck)
     res = [r for part in pool_map(_chunk, list(chunks(hs, 400))) for r in part]
